@@ -222,6 +222,24 @@ func small7(tag string) uint64 {
 	return []uint64{0, 1, 127, 128}[verif.Choose(tag, 4)]
 }
 
+// widthBoundary is a scalar at a varint width boundary: 0 / 1 / 127 / 128 in the quick tier,
+// every boundary 2^(7k)-1, 2^(7k) of the type plus its maximum in the thorough tier.
+func widthBoundary(tag string, bits int) uint64 {
+	if !verif.Thorough() {
+		return []uint64{0, 1, 127, 128}[verif.Choose(tag, 4)]
+	}
+	vals := []uint64{0, 1}
+	for k := 7; k < bits; k += 7 {
+		vals = append(vals, uint64(1)<<uint(k)-1, uint64(1)<<uint(k))
+	}
+	if bits == 64 {
+		vals = append(vals, ^uint64(0))
+	} else {
+		vals = append(vals, uint64(1)<<uint(bits)-1)
+	}
+	return vals[verif.Choose(tag, len(vals))]
+}
+
 func arbMeta(tag string) *esdt.MetaData {
 	m := &esdt.MetaData{Nonce: small7(tag + ".nonce"), Royalties: uint32(small7(tag + ".royalties"))}
 	m.Name = verif.BytesLen(tag+".name", 0, 1)
@@ -304,15 +322,12 @@ func C14_MetaDataRoundTrip() {
 
 func C14_TokenRoundTrip() {
 	verif.AllocBound(96)
-	t := &esdt.ESDigitalToken{Type: uint32(small7("type")), Value: smallBig("value")}
+	t := &esdt.ESDigitalToken{Type: uint32(widthBoundary("type", 32)), Value: smallBig("value")}
 	t.Properties = verif.BytesLen("props", 0, 2)
 	t.Reserved = verif.BytesLen("reserved", 0, 1)
 	if verif.Bool("hasMeta") {
-		if verif.Thorough() {
-			t.TokenMetaData = arbMeta("m")
-		} else {
-			t.TokenMetaData = &esdt.MetaData{Nonce: small7("m.nonce"), Name: verif.BytesLen("m.name", 0, 1), URIs: [][]byte{verif.BytesLen("m.uri", 0, 1)}}
-		}
+		// every metadata field symbolic is C14_MetaDataRoundTrip's subject; here the nesting
+		t.TokenMetaData = &esdt.MetaData{Nonce: widthBoundary("m.nonce", 64), Name: verif.BytesLen("m.name", 0, 1), URIs: [][]byte{verif.BytesLen("m.uri", 0, 1)}}
 	}
 	b, err := t.Marshal()
 	verif.Assert("marshal-ok", err == nil)
